@@ -322,8 +322,9 @@ class CallCtx(object):
         post_ctx.block = (lo, st.aptr)
         for k, v in new_ghost_vals.items():
             st.ghost[k] = v
+        from . import solve as _solve
         for label, fn_ens, props in con.ensures:
-            st.assume(fn_ens(post_ctx))
+            st.assume(_solve.close_free(fn_ens(post_ctx)))
         out = []
         for s2, tagk in ex.fork(st, [(z3.Not(raised), "ret"), (raised, "exc")], "call:" + con.key):
             # write mutated parameters back to the caller's variables is done by the caller through
